@@ -23,7 +23,7 @@
 From Coq Require Import Permutation Sorting.Sorted.
 From GoCar Require Import Bytes Varint Cid Header Frame V2Header Scan Index IndexGen.
 From GoCarProofs Require Import BytesFacts CidFacts HeaderFacts ScanFacts IndexSort IndexLoad IndexCanon
-  IndexGenFacts IndexGenLookup IndexGenExamples.
+  IndexRoundtrip IndexGenFacts IndexGenLookup IndexGenExamples IndexGenRog IndexGenMore.
 
 Local Notation sort_ok srt :=
   (forall l, Permutation (srt l) l /\
@@ -204,3 +204,141 @@ Theorem C03_hypotheses_hold_for_canonical_decoder :
     header_ok dec_header_canon o roots /\ (10 <= g_maxh o -> pragma_ok dec_header_canon o).
 Proof. exact (fun o roots Hr H1 H2 => conj (hdr_fits_canon o roots Hr H1 H2) (pragma_good_canon o)). Qed.
 Print Assumptions C03_hypotheses_hold_for_canonical_decoder.
+
+(* ---- (5) ReadOrGenerateIndex ------------------------------------------------------------------------
+   [read_or_generate_index_with srt hdrdec codec o file]: ReadVersion, then GenerateIndex (CARv1, or
+   CARv2 whose header has no index) over the data reader, or index.ReadFrom at IndexOffset. *)
+
+(* CARv1: it is the generated index: the index of exactly the section records *)
+Theorem C03_read_or_generate_carv1 :
+  forall hdrdec (srt : list irec -> list irec) codec i0 o roots bs,
+    idx_new codec = Some i0 ->
+    header_ok hdrdec o roots -> blocks_ok bs -> cids_fit o bs ->
+    blen (enc_payload roots bs) < two63 ->
+    read_or_generate_index_with srt hdrdec codec o (enc_payload roots bs)
+    = Ok (idx_load_with srt (section_recs o (hlen roots) bs) i0).
+Proof. exact rog_v1. Qed.
+Print Assumptions C03_read_or_generate_carv1.
+
+(* CARv2 without an index (IndexOffset = 0), any padding and trailer: the same generated index *)
+Theorem C03_read_or_generate_carv2_without_index :
+  forall hdrdec (srt : list irec -> list irec) codec i0 o hi lo pad roots bs trailer,
+    idx_new codec = Some i0 ->
+    pragma_ok hdrdec o -> header_ok hdrdec o roots -> blocks_ok bs -> cids_fit o bs ->
+    hi < two64 -> lo < two64 ->
+    blen (v2_container hi lo 0 pad (enc_payload roots bs) trailer) < two63 ->
+    read_or_generate_index_with srt hdrdec codec o (v2_container hi lo 0 pad (enc_payload roots bs) trailer)
+    = Ok (idx_load_with srt (section_recs o (hlen roots) bs) i0).
+Proof. exact rog_v2_without_index. Qed.
+Print Assumptions C03_read_or_generate_carv2_without_index.
+
+(* CARv2 with an index: exactly index.ReadFrom of the bytes at IndexOffset, for ANY payload bytes and
+   trailer (nothing is scanned, the codec option is ignored) *)
+Theorem C03_read_or_generate_reads_the_index_section :
+  forall hdrdec (srt : list irec -> list irec) codec o hi lo ioff pad payload trailer,
+    pragma_ok hdrdec o -> hi < two64 -> lo < two64 -> 0 < ioff < two63 -> 0 < blen payload ->
+    blen (v2_container hi lo ioff pad payload trailer) < two63 ->
+    read_or_generate_index_with srt hdrdec codec o (v2_container hi lo ioff pad payload trailer)
+    = match idx_read (drop ioff (v2_container hi lo ioff pad payload trailer)) with
+      | Ok (i, _) => Ok i
+      | Err e => Err e
+      end.
+Proof. exact rog_v2_reads_index. Qed.
+Print Assumptions C03_read_or_generate_reads_the_index_section.
+
+(* ... so an index written anywhere after the payload (index padding [gap]) comes back unchanged *)
+Theorem C03_read_or_generate_returns_the_written_index :
+  forall hdrdec (srt : list irec -> list irec) codec o hi lo pad payload gap i rest,
+    pragma_ok hdrdec o -> hi < two64 -> lo < two64 -> 0 < blen payload -> idx_wf i ->
+    blen (v2_container hi lo (51 + blen pad + blen payload + blen gap) pad payload (gap ++ idx_write i ++ rest)) < two63 ->
+    read_or_generate_index_with srt hdrdec codec o
+      (v2_container hi lo (51 + blen pad + blen payload + blen gap) pad payload (gap ++ idx_write i ++ rest))
+    = Ok i.
+Proof. exact rog_v2_with_written_index. Qed.
+Print Assumptions C03_read_or_generate_returns_the_written_index.
+
+(* soundness and completeness lifted.  [answers_exactly o codec roots bs i] (proofs/IndexGenRog.v) is
+   the conjunction of C03_lookup_exact and C03_lookup_sound for the index value i: for every key,
+   GetAll = spec_lookup as a multiset, and every reported offset decodes to an indexed section
+   carrying the key.
+   (i) generating branches: CARv1 and index-less CARv2 give one and the same index, which answers
+   exactly *)
+Theorem C03_read_or_generate_generated_answers_exactly :
+  forall hdrdec (srt : list irec -> list irec), sort_ok srt ->
+  forall codec i0 o hi lo pad roots bs trailer,
+    idx_new codec = Some i0 ->
+    pragma_ok hdrdec o -> header_ok hdrdec o roots -> blocks_ok bs -> cids_fit o bs ->
+    hi < two64 -> lo < two64 ->
+    blen (v2_container hi lo 0 pad (enc_payload roots bs) trailer) < two63 ->
+    blen (compact (section_recs o (hlen roots) bs)) <= max_alloc ->
+    exists i,
+      read_or_generate_index_with srt hdrdec codec o (enc_payload roots bs) = Ok i /\
+      read_or_generate_index_with srt hdrdec codec o (v2_container hi lo 0 pad (enc_payload roots bs) trailer) = Ok i /\
+      answers_exactly o codec roots bs i.
+Proof. exact rog_generated_answers_exactly. Qed.
+Print Assumptions C03_read_or_generate_generated_answers_exactly.
+
+(* (ii) reading branch: when the file carries its payload's own index (what GenerateIndex / Finalize
+   wrote for these sections under codec', with any sort.Sort behaviour srt'), the result answers
+   exactly -- under codec', whatever codec the caller asked for *)
+Theorem C03_read_or_generate_own_index_answers_exactly :
+  forall hdrdec (srt srt' : list irec -> list irec) codec codec' i0' o hi lo pad roots bs gap rest,
+    sort_ok srt' -> idx_new codec' = Some i0' ->
+    pragma_ok hdrdec o -> hi < two64 -> lo < two64 ->
+    blocks_ok bs -> blen (enc_payload roots bs) < two63 ->
+    (blen (compact (section_recs o (hlen roots) bs)) <= max_alloc /\
+     (codec' = codec_mh_sorted ->
+      N.of_nat (length (group_by r_code (section_recs o (hlen roots) bs))) < two31)) ->
+    blen (v2_container hi lo (51 + blen pad + blen (enc_payload roots bs) + blen gap) pad (enc_payload roots bs)
+            (gap ++ idx_write (idx_load_with srt' (section_recs o (hlen roots) bs) i0') ++ rest)) < two63 ->
+    exists i,
+      read_or_generate_index_with srt hdrdec codec o
+        (v2_container hi lo (51 + blen pad + blen (enc_payload roots bs) + blen gap) pad (enc_payload roots bs)
+           (gap ++ idx_write (idx_load_with srt' (section_recs o (hlen roots) bs) i0') ++ rest)) = Ok i /\
+      answers_exactly o codec' roots bs i.
+Proof. exact rog_own_index_answers_exactly. Qed.
+Print Assumptions C03_read_or_generate_own_index_answers_exactly.
+
+(* ---- (6) any header; the nil-roots header ---------------------------------------------------------------
+   (1) generalised: the header may be ANY byte string the decoder accepts as a version-1 header (with
+   whatever roots) -- e.g. a non-canonical encoding -- not only [enc_header (Some roots) 1] *)
+Theorem C03_records_exact_carv1_any_header :
+  forall hdrdec k o hb r bs,
+    hdrdec hb = Some (r, 1) -> blen hb <= g_maxh o -> blen hb < two63 ->
+    blocks_ok bs -> cids_fit o bs ->
+    blen (ld hb ++ enc_sections bs) < two63 ->
+    load_index hdrdec k o (ld hb ++ enc_sections bs) = Ok (section_recs o (ld_size (blen hb)) bs).
+Proof. exact load_index_v1_any_header. Qed.
+Print Assumptions C03_records_exact_carv1_any_header.
+
+(* the header go-car writes for a nil root slice (a2 "roots" f6 "version" 01), canonical decoder:
+   no oracle hypothesis left *)
+Theorem C03_records_exact_carv1_nil_roots :
+  forall k o bs,
+    blen (enc_header None 1) <= g_maxh o -> blocks_ok bs -> cids_fit o bs ->
+    blen (ld (enc_header None 1) ++ enc_sections bs) < two63 ->
+    load_index dec_header_canon k o (ld (enc_header None 1) ++ enc_sections bs) = Ok (section_recs o 18 bs).
+Proof. exact load_index_v1_nil_roots. Qed.
+Print Assumptions C03_records_exact_carv1_nil_roots.
+
+(* ---- (7) the code AS FOUND: where it did satisfy the property (the _partial statements that go with
+   the two refutations above).  Guard (executable): the source is seekable, and -- for CARv2 -- the
+   payload has at least one section or nothing follows it. *)
+Theorem C03_records_exact_carv1_partial_as_found :
+  forall hdrdec o roots bs,
+    header_ok hdrdec o roots -> blocks_ok bs -> cids_fit o bs ->
+    blen (enc_payload roots bs) < two63 ->
+    load_index_gen hdrdec as_found SrcSeek o (enc_payload roots bs) = Ok (section_recs o (hlen roots) bs).
+Proof. exact load_index_as_found_seek_v1. Qed.
+Print Assumptions C03_records_exact_carv1_partial_as_found.
+
+Theorem C03_records_exact_carv2_partial_as_found :
+  forall hdrdec o hi lo ioff pad roots bs trailer,
+    (bs <> [] \/ trailer = []) ->
+    pragma_ok hdrdec o -> header_ok hdrdec o roots -> blocks_ok bs -> cids_fit o bs ->
+    hi < two64 -> lo < two64 -> ioff < two63 ->
+    blen (v2_container hi lo ioff pad (enc_payload roots bs) trailer) < two63 ->
+    load_index_gen hdrdec as_found SrcSeek o (v2_container hi lo ioff pad (enc_payload roots bs) trailer)
+    = Ok (section_recs o (hlen roots) bs).
+Proof. exact load_index_as_found_seek_v2. Qed.
+Print Assumptions C03_records_exact_carv2_partial_as_found.
